@@ -867,8 +867,42 @@ class QuantGen(V):
 # ---------------------------------------------------------------------------
 # call dispatch
 # ---------------------------------------------------------------------------
+def external(I, e, name, spec):
+    """a call to a function outside the verified code (file system, locks, ...): recorded in the
+    ghost trace, result havoced per its declared type, may raise the declared exceptions"""
+    from .interp import Raised
+    args = [I.eval(a) for a in e.args]
+    kwargs = {kw.arg: I.eval(kw.value) for kw in e.keywords}
+    short = spec.get('as', name.split('.')[-1])
+    tr = I.ghost.setdefault('ext_trace', [])
+    rz = spec.get('raises', [])
+    outcome = I.path.choose(1 + len(rz), 'ext:%s' % short) if rz else 0
+    rec = {'name': short, 'args': args, 'kwargs': kwargs, 'raised': outcome != 0}
+    tr.append(rec)
+    if outcome:
+        import builtins as _b
+        raise Raised(VExc(getattr(_b, rz[outcome - 1]), []))
+    res = spec.get('result')
+    if res is None:
+        r = NONE
+    elif res.startswith('rec:'):
+        r = VRec('ext::' + res[4:], {})
+    else:
+        r = fresh(parse_ty(res), 'ext_' + short)
+    rec['result'] = r
+    return r
+
+
 def call(I, e):
     f = e.func
+    exts = getattr(I.contract, 'ghost', {}).get('externals') if I.contract is not None else None
+    if exts:
+        try:
+            dotted = ast.unparse(f)
+        except Exception:
+            dotted = None
+        if dotted in exts:
+            return external(I, e, dotted, exts[dotted])
     # spec-only special forms
     if isinstance(f, ast.Name):
         if f.id == 'old' and I.spec_mode:
